@@ -3,7 +3,9 @@ import MuscleModel.Reflector.MirrorProofs7
 /-!
 # C04 lemmas, part 8: the marking invariant over the engine `srv` itself
 
-`LineOK toks`: if the op line parses to a command, the command is `CmdOK` (its SUBSCRIBE path is a `GoodPath`).
+`LineOK toks`: if the op line parses to a command, the command is `CmdOK` (its SUBSCRIBE path is a `GoodPath`), and the
+line is none of the server-side subtree ops `clone` / `save` / `restore` / `trees` (they are not commands of `Cmd`; the
+states they reach are outside `MReach`).
 `EInv st`: the engine's server state is `MReach` and every command waiting in an open batch is `CmdOK`.
 Every op line whatsoever (`case` resets, `pump`, `wping`, `attach`, `detach`, `find`, `setm`, `batch begin/end`, queued and
 direct commands, bad ops, poisoned cases) keeps `EInv`.
@@ -15,7 +17,15 @@ set_option linter.unusedVariables false
 namespace Muscle.Reflector
 open Muscle Muscle.Eng.SrvEngine
 
-def LineOK (toks : List String) : Prop := ∀ c, parseCmd toks = some c → CmdOK c
+/-- the first token is one of the server-side subtree ops (`clone`, `save`, `restore`, `trees`): they are not commands of
+    `Cmd`, and the states they reach are outside `MReach` -/
+def isSubtreeOp : List String → Bool
+  | op :: _ => op = "clone" || op = "save" || op = "restore" || op = "trees"
+  | [] => false
+
+/-- the op lines the invariant is proved for: if the line parses to a command the command is `CmdOK`, and the line is no
+    server-side subtree op -/
+def LineOK (toks : List String) : Prop := (∀ c, parseCmd toks = some c → CmdOK c) ∧ ¬ isSubtreeOp toks = true
 
 def EInv (st : St) : Prop := MReach st.sv ∧ ∀ b ∈ st.batch, ∀ c ∈ b.2, CmdOK c
 
@@ -35,6 +45,31 @@ theorem mreach_batch (sid : Nat) (cmds : List Cmd) (hc : ∀ c ∈ cmds, CmdOK c
 
 theorem einv_init : EInv ({} : St) := ⟨.init, by intro b hb; cases hb⟩
 
+theorem mreach_of_attach_eq {sv X : Server} {sl sid : Nat} {hh : Bytes} (e : attach sv sl hh = (X, sid)) (h : MReach sv) :
+    MReach X := by
+  have := MReach.attach sl hh h
+  rw [e] at this
+  exact this
+
+theorem cmdsOK_of_find {st : St} {sl : Nat} {p : Nat × List Cmd}
+    (e : st.batch.find? (fun (x : Nat × List Cmd) => match x with | (s, _) => decide (s = sl)) = some p) (h : EInv st) :
+    ∀ c ∈ p.2, CmdOK c :=
+  fun c hc => h.2 p (List.mem_of_find?_eq_some e) c hc
+
+theorem einv_queue {st : St} (h : EInv st) (sl : Nat) (c : Cmd) (hc : CmdOK c) :
+    ∀ b ∈ st.batch.map (fun (x : Nat × List Cmd) => match x with | (s, cs) => if s = sl then (s, cs ++ [c]) else (s, cs)),
+      ∀ c' ∈ b.2, CmdOK c' := by
+  intro b hb c' hc'
+  obtain ⟨b0, hb0, rfl⟩ := List.mem_map.1 hb
+  obtain ⟨s0, cs0⟩ := b0
+  simp only [] at hc'
+  split at hc'
+  · rcases List.mem_append.1 hc' with hc' | hc'
+    · exact h.2 _ hb0 c' hc'
+    · simp only [List.mem_singleton] at hc'; subst hc'; exact hc
+  · exact h.2 _ hb0 c' hc'
+
+/-- one op line.  Every alternative fetches the facts it needs BY TYPE (`by assumption`), not by position. -/
 theorem einv_step {st : St} (toks : List String) (hl : LineOK toks) (h : EInv st) : EInv (step st toks).1 := by
   unfold step
   repeat' split
@@ -45,31 +80,17 @@ theorem einv_step {st : St} (toks : List String) (hl : LineOK toks) (h : EInv st
     | exact ⟨.push (.cmd _ (.ping _) trivial h.1), h.2⟩
     | exact ⟨.detach _ h.1, fun b hb => h.2 b (List.mem_filter.1 hb).1⟩
     | exact ⟨.push (mreach_setm _ _ _ h.1), h.2⟩
-    | (rename_i sl hh _ _ _ _ _ _ heq
-       have := MReach.attach sl hh h.1
-       rw [heq] at this
-       exact ⟨this, h.2⟩)
+    | exact ⟨mreach_of_attach_eq (by assumption) h.1, h.2⟩
+    | exact absurd (by assumption) hl.2
     | (refine ⟨h.1, ?_⟩
        intro b hb c hc
        rcases List.mem_append.1 hb with hb | hb
        · exact h.2 b hb c hc
        · simp only [List.mem_singleton] at hb; subst hb; cases hc)
-    | (rename_i heq
-       exact ⟨.push (mreach_batch _ _ (fun c hc => h.2 _ (List.mem_of_find?_eq_some heq) c hc) h.1),
-         fun b hb => h.2 b (List.mem_filter.1 hb).1⟩)
-    | (rename_i heq _
-       refine ⟨h.1, ?_⟩
-       intro b hb c' hc'
-       obtain ⟨b0, hb0, rfl⟩ := List.mem_map.1 hb
-       obtain ⟨s0, cs0⟩ := b0
-       simp only [] at hc'
-       split at hc'
-       · rcases List.mem_append.1 hc' with hc' | hc'
-         · exact h.2 _ hb0 c' hc'
-         · simp only [List.mem_singleton] at hc'; subst hc'; exact hl _ heq
-       · exact h.2 _ hb0 c' hc')
-    | (rename_i heq _
-       exact ⟨.push (.cmd _ _ (hl _ heq) h.1), h.2⟩)
+    | exact ⟨.push (mreach_batch _ _ (cmdsOK_of_find (by assumption) h) h.1),
+        fun b hb => h.2 b (List.mem_filter.1 hb).1⟩
+    | exact ⟨h.1, einv_queue h _ _ (hl.1 _ (by assumption))⟩
+    | exact ⟨.push (.cmd _ _ (hl.1 _ (by assumption)) h.1), h.2⟩
 
 /-- every state of the engine on an op stream all of whose lines are `LineOK` -/
 theorem einv_engine (lines : List (List String)) (hl : ∀ toks ∈ lines, LineOK toks) :
